@@ -36,8 +36,7 @@ theorem descrs_are_the_sites :
 `drc_planning_deterministic` with an explicit hypothesis. Everything else is described. -/
 theorem hash_tied_sites :
     (descrs.filter (fun d => !d.body.described)).map (fun d => (d.file, d.fn)) =
-      [("cisco/diff.go", "State.diffConfig"), ("cisco/parse.go", "parser.addDefaults"),
-       ("program/config.go", "LoadConfig")] := by decide
+      [("cisco/parse.go", "parser.addDefaults"), ("program/config.go", "LoadConfig")] := by decide
 
 /-- **Described ⇒ order-insensitive, for every semantics.** The statement that makes a hand-written
 row unnecessary: for every site of the regenerated list whose body is described, running the body over
@@ -46,9 +45,9 @@ whatever the body computes. -/
 theorem described_sites_order_insensitive {K V C : Type} [DecidableEq K] :
     ∀ d, d ∈ descrs → d.body.described = true →
       ∀ (sem : Sem K V) (sem2 : Sem2 K) (p : PState K V C) (es₁ es₂ : List (Entry K)),
-        DistinctKeys es₁ → SeparateEntries es₁ → es₁.Perm es₂ →
+        DistinctKeys es₁ → SeparateEntries es₁ → PayloadsAgree d.body sem2 es₁ → es₁.Perm es₂ →
         runBody d.fn d.body sem sem2 p es₁ = runBody d.fn d.body sem sem2 p es₂ :=
-  fun d _ _ sem sem2 p _ _ hk hs perm => runBody_perm d.fn d.body sem sem2 p hk hs perm
+  fun d _ _ sem sem2 p _ _ hk hs ha perm => runBody_perm d.fn d.body sem sem2 p hk hs ha perm
 
 /-! ## Invocations of sites by the glue code -/
 
@@ -62,6 +61,7 @@ structure Described (K V C : Type) where
   entries : List (Entry K)
   hkeys : DistinctKeys entries
   hsep : SeparateEntries entries
+  hagree : PayloadsAgree (descrs[idx]'hidx).body sem2 entries   -- only a `firstPayload` body asks for it
   post : PState K V C → PState K V C      -- deterministic code up to the next loop
 
 /-- The glue code runs a hash-tied site: its order-insensitivity is an **assumption** (`hinv`). -/
@@ -88,7 +88,9 @@ def stageOf {K V C : Type} [DecidableEq K] : Invocation K V C → Stage (PState 
         have hk : DistinctKeys l := UniqueKeys.perm hl.symm d.hkeys
         have hs : SeparateEntries l := fun a ha b hb hab i hi =>
           d.hsep a (hl.mem_iff.mp ha) b (hl.mem_iff.mp hb) hab i hi
-        rw [runBody_perm _ _ d.sem d.sem2 p hk hs hl] }
+        have ha : PayloadsAgree (descrs[d.idx]'d.hidx).body d.sem2 l := fun t ht a haa a' haa' =>
+          d.hagree t ht a (hl.mem_iff.mp haa) a' (hl.mem_iff.mp haa')
+        rw [runBody_perm _ _ d.sem d.sem2 p hk hs ha hl] }
   | .hashTied h =>
     { entries := fun _ => h.entries
       body := fun p l => h.post (h.body p l)
@@ -128,13 +130,14 @@ example : Described String Nat Unit where
   hidx := by decide
   hdescribed := by decide
   sem := ⟨fun _ h c => h c + 1, fun _ _ _ => false, fun _ _ => false, fun _ => 0, 0⟩
-  sem2 := ⟨fun _ => true, fun e => e.key, fun _ => false⟩
+  sem2 := ⟨fun _ => true, fun e => e.key, fun _ => false, fun _ => ""⟩
   entries := [⟨"a", [1]⟩, ⟨"b", [2]⟩]
   hkeys := by unfold DistinctKeys UniqueKeys; decide
   hsep := by
     intro a ha b hb hab i hi
     simp only [List.mem_cons, List.mem_nil_iff, or_false] at ha hb
     rcases ha with rfl | rfl <;> rcases hb with rfl | rfl <;> simp at hab hi <;> omega
+  hagree := by intro t _ a _ a' _; rfl
   post := id
 
 end NA.C16
